@@ -600,6 +600,7 @@ var stubSets = map[string]map[string]externalFn{
 			op := fr.i.prog.ImportedPackage("os")
 			ft := op.Type("File").Object().Type()
 			p := &pipeObj{}
+			fr.i.pipes = append(fr.i.pipes, p)
 			mk := func(w bool) value {
 				cell := zero(ft)
 				cell.(structure)[0] = &pipeEnd{p: p, write: w}
